@@ -1,16 +1,36 @@
 (* Executable glue for the C07 correspondence shards: the engine model's trace, rendered in the
    row format of the harness logging kernel (harness/lv/enginekit.py), compared with the decoded
-   log of every kernel of every chain. *)
+   log of every kernel of every chain.
+
+   How a run is observed (harness/lv/c07.py): the operation sequence of a case ENDS with
+   [AppendEpoch sentinel; SampleNext], the sentinel being a short burn-in / posterior epoch, and the
+   kernel states stored (store_kernel_states) for the last iteration of that sentinel hold the
+   complete log of the run up to and including every kernel's last transition.  The only calls of
+   the model that this does not expose are those after the last transition (the sentinel's
+   end_epoch): [cut_tail] removes exactly the trailing non-transition rows of the model's log.
+   Everything else - every row of every kernel of every chain - is compared. *)
 From Coq Require Import List ZArith Bool Arith.
 Import ListNotations.
 From LV Require Import Base.ListAux Goose.Epoch Goose.Engine Goose.EngineSpec.
 Open Scope Z_scope.
 
-(* ---- keys: the harness supplies, per chain, the concrete 2 x uint32 key of every path the
-   model uses (computed with jax.random.split along the path) ---- *)
-Definition keytab := list (list Z * (Z * Z)).
+(* ---- keys.  Every key the engine hands out is  (a prefix of the engine's final carry key) ++ (a short
+   suffix): _split_prng_key keeps child 0 as the new carry.  A path is therefore written relative to
+   the final carry key [fin] of the run as  m :: flattened suffix,  m = length of the common prefix.
+   The map is injective for a fixed [fin] (the path is  firstn m fin ++ suffix).  The harness decodes
+   it, walks jax.random.split along the path from the chain's root key and supplies the concrete
+   2 x uint32 key in a table keyed by the code. ---- *)
 Fixpoint flat_path (k : key) : list Z :=
   match k with [] => [] | (n, i) :: r => Z.of_nat n :: Z.of_nat i :: flat_path r end.
+Fixpoint common_prefix (a b : key) : nat :=
+  match a, b with
+  | (n, i) :: a', (n', i') :: b' =>
+      if Nat.eqb n n' && Nat.eqb i i' then S (common_prefix a' b') else 0%nat
+  | _, _ => 0%nat
+  end.
+Definition compress (fin p : key) : list Z :=
+  let m := common_prefix fin p in Z.of_nat m :: flat_path (skipn m p).
+Definition keytab := list (list Z * (Z * Z)).
 Fixpoint lookup (t : keytab) (p : list Z) : option (Z * Z) :=
   match t with
   | [] => None
@@ -39,21 +59,32 @@ Definition call_row (c : call) (clock : Z) : list Z :=
   end.
 Definition is_trans (c : call) : bool := match c with CTrans _ _ _ => true | _ => false end.
 
-(* rows of kernel k, without keys; the clock is the number of transitions (of any kernel) that
-   precede the call: every transition of the harness kernel increments it in the model state *)
-Fixpoint abs_rows (k : nat) (clock : Z) (tr : list kcall) : list (list Z * list Z) :=
+(* rows of kernel k with the key each call received; the clock is the number of transitions (of any
+   kernel) that precede the call: every transition of the harness kernel increments it in the
+   model state, so the order of the kernels inside one iteration is part of what is compared *)
+Fixpoint abs_rows (k : nat) (clock : Z) (tr : list kcall) : list (list Z * key) :=
   match tr with
   | [] => []
   | (c, key) :: r =>
       let rest := abs_rows k (if is_trans c then clock + 1 else clock) r in
-      if Nat.eqb (call_ker c) k then (call_row c clock, flat_path key) :: rest else rest
+      if Nat.eqb (call_ker c) k then (call_row c clock, key) :: rest else rest
   end.
 
-Fixpoint concretize (t : keytab) (l : list (list Z * list Z)) : option (list (list Z)) :=
+(* drop the trailing rows that are not transitions (meth 2 / 3) *)
+Definition row_is_trans (r : list Z) : bool :=
+  match r with m :: _ => (m =? 2) || (m =? 3) | [] => false end.
+Fixpoint drop_nontrans {A} (l : list (list Z * A)) : list (list Z * A) :=
+  match l with
+  | [] => []
+  | x :: r => if row_is_trans (fst x) then l else drop_nontrans r
+  end.
+Definition cut_tail {A} (l : list (list Z * A)) : list (list Z * A) := rev (drop_nontrans (rev l)).
+
+Fixpoint concretize (fin : key) (t : keytab) (l : list (list Z * key)) : option (list (list Z)) :=
   match l with
   | [] => Some []
   | (row, p) :: r =>
-      match lookup t p, concretize t r with
+      match lookup t (compress fin p), concretize fin t r with
       | Some (a, b), Some rows => Some ((row ++ [a; b]) :: rows)
       | _, _ => None
       end
@@ -62,31 +93,48 @@ Fixpoint concretize (t : keytab) (l : list (list Z * list Z)) : option (list (li
 Definition rows_eqb (a b : list (list Z)) : bool := list_eqb (list_eqb Z.eqb) a b.
 
 (* ---- cases ---- *)
-Record chain_obs := mkCh { ch_tab : keytab; ch_logs : list (list (list Z)) }.   (* logs per kernel *)
+(* logs per kernel; each observed row = the 14 columns of [call_row] followed by the two key words *)
+Record chain_obs := mkCh { ch_tab : keytab; ch_logs : list (list (list Z)) }.
 Record ccase := mkCase {
   cs_chunk : Z; cs_needs : list bool; cs_init : list econf; cs_ops : list op;
   cs_chains : list chain_obs }.
 
-Definition model_rows (fl : warmflag) (c : ccase) : option (list (list (list Z * list Z))) :=
+(* -> (final carry key, rows per kernel) *)
+Definition model_rows (fl : warmflag) (c : ccase) : option (key * list (list (list Z * key))) :=
   match run (mkP (cs_chunk c) (cs_needs c) fl) (cs_init c) (cs_ops c) with
-  | Ok g => Some (map (fun k => abs_rows k 0 (trace g)) (seq 0 (length (cs_needs c))))
+  | Ok g => Some (c_key (g_core g),
+                  map (fun k => cut_tail (abs_rows k 0 (trace g))) (seq 0 (length (cs_needs c))))
   | Err _ => None
   end.
 
-Definition chain_agrees (m : list (list (list Z * list Z))) (ch : chain_obs) : bool :=
+(* (a) the calls: everything but the keys *)
+Definition strip_key (r : list Z) : list Z := firstn 14 r.
+Definition chain_agrees_calls (m : list (list (list Z * key))) (ch : chain_obs) : bool :=
   Nat.eqb (length m) (length (ch_logs ch))
-  && forallb (fun p => match concretize (ch_tab ch) (fst p) with
+  && forallb (fun p => rows_eqb (map fst (fst p)) (map strip_key (snd p))
+                       && forallb (fun r => Nat.eqb (length r) 16) (snd p))
+             (combine m (ch_logs ch)).
+(* (b) calls and keys *)
+Definition chain_agrees (fin : key) (m : list (list (list Z * key))) (ch : chain_obs) : bool :=
+  Nat.eqb (length m) (length (ch_logs ch))
+  && forallb (fun p => match concretize fin (ch_tab ch) (fst p) with
                        | Some rows => rows_eqb rows (snd p)
                        | None => false
                        end)
              (combine m (ch_logs ch)).
 
+Definition agrees_calls_fl (fl : warmflag) (c : ccase) : bool :=
+  match model_rows fl c with
+  | Some (_, m) => negb (Nat.eqb (length (cs_chains c)) 0) && forallb (chain_agrees_calls m) (cs_chains c)
+  | None => false
+  end.
 Definition agrees_fl (fl : warmflag) (c : ccase) : bool :=
   match model_rows fl c with
-  | Some m => negb (Nat.eqb (length (cs_chains c)) 0) && forallb (chain_agrees m) (cs_chains c)
+  | Some (fin, m) => negb (Nat.eqb (length (cs_chains c)) 0) && forallb (chain_agrees fin m) (cs_chains c)
   | None => false
   end.
 (* the tree under test implements the repaired variant *)
+Definition agrees_calls (c : ccase) : bool := agrees_calls_fl SetsFlag c.
 Definition agrees (c : ccase) : bool := agrees_fl SetsFlag c.
 
 (* the sampled case lies in the domain of the C07 theorems *)
@@ -111,16 +159,20 @@ Definition spec_agrees (c : ccase) : bool :=
   | Err _ => false
   end.
 
-(* paths of all keys the model hands out (for the harness to derive the concrete keys) *)
-Definition model_paths_fl (fl : warmflag) (c : ccase) : list (list Z) :=
-  match run (mkP (cs_chunk c) (cs_needs c) fl) (cs_init c) (cs_ops c) with
-  | Ok g => map (fun kc => flat_path (snd kc)) (trace g)
+(* for the harness to derive the concrete keys: the flattened final carry key, followed by the code of
+   every key the model hands out (repaired variant) *)
+Definition model_paths (c : ccase) : list (list Z) :=
+  match run (mkP (cs_chunk c) (cs_needs c) SetsFlag) (cs_init c) (cs_ops c) with
+  | Ok g => flat_path (c_key (g_core g)) :: map (fun kc => compress (c_key (g_core g)) (snd kc)) (trace g)
   | Err _ => []
   end.
-(* both variants, so that a failing case can be classified against the unrepaired one too *)
-Definition model_paths (c : ccase) : list (list Z) :=
-  model_paths_fl SetsFlag c ++ model_paths_fl NeverSets c.
-(* diagnostics: per chain and kernel, index of the first row that differs (99999 = none) *)
+
+(* diagnostics: which variant / which part agrees:
+   [calls SetsFlag; keys SetsFlag; calls NeverSets; keys NeverSets; hyp_ok; spec_agrees] *)
+Definition verdicts (c : ccase) : list bool :=
+  [agrees_calls_fl SetsFlag c; agrees_fl SetsFlag c; agrees_calls_fl NeverSets c; agrees_fl NeverSets c;
+   hyp_ok c; spec_agrees c].
+(* per chain and kernel, index of the first keyless row that differs (999 = none, 777 = the model errs) *)
 Fixpoint first_mismatch (i : nat) (a b : list (list Z)) : nat :=
   match a, b with
   | [], [] => 999%nat
@@ -129,10 +181,14 @@ Fixpoint first_mismatch (i : nat) (a b : list (list Z)) : nat :=
   end.
 Definition first_diff (fl : warmflag) (c : ccase) : list nat :=
   match model_rows fl c with
-  | Some m =>
-      flat_map (fun ch => map (fun p => match concretize (ch_tab ch) (fst p) with
-                                        | Some rows => first_mismatch 0 rows (snd p)
-                                        | None => 888%nat
-                                        end) (combine m (ch_logs ch))) (cs_chains c)
+  | Some (_, m) =>
+      flat_map (fun ch => map (fun p => first_mismatch 0 (map fst (fst p)) (map strip_key (snd p)))
+                              (combine m (ch_logs ch))) (cs_chains c)
   | None => [777%nat]
+  end.
+(* the model's keyless rows of kernel k (to print what the model expects at a mismatch) *)
+Definition model_row_at (fl : warmflag) (c : ccase) (k i : nat) : list Z :=
+  match model_rows fl c with
+  | Some (_, m) => nth i (map fst (nth k m [])) []
+  | None => []
   end.
